@@ -215,18 +215,18 @@ func help1(c *Ctx) {
 			row, item = cv, it
 			var problems []string
 			// env part
-			if e, isCall := parts[1].(*ssa.Call); !isCall || ir.Static(e) == nil || len(e.Call.Args) != 1 {
+			if e, isCall := parts[1].(*ssa.Call); !isCall || ir.Static(e) == nil {
 				problems = append(problems, "the env part is missing")
-			} else if b, ok := fieldOf(e.Call.Args[0], "EnvVar"); !ok || b != it {
+			} else if inputOf(e, ir.Static(e), it, "EnvVar") == nil {
 				problems = append(problems, "the env part is not computed from this item's EnvVar")
 			}
-			if v, isCall := parts[2].(*ssa.Call); !isCall || ir.Static(v) == nil || len(v.Call.Args) != 2 {
+			if v, isCall := parts[2].(*ssa.Call); !isCall || ir.Static(v) == nil {
 				problems = append(problems, "the default part is missing")
 			} else {
-				if b, ok := fieldOf(v.Call.Args[0], "HideValue"); !ok || b != it {
+				if inputOf(v, ir.Static(v), it, "HideValue") == nil {
 					problems = append(problems, "the default part ignores this item's HideValue")
 				}
-				if b, ok := fieldOf(v.Call.Args[1], "DefaultValue"); !ok || b != it {
+				if inputOf(v, ir.Static(v), it, "DefaultValue") == nil {
 					problems = append(problems, "the default part is not this item's DefaultValue")
 				}
 			}
@@ -478,7 +478,7 @@ func walkPath(start, stopAt *ssa.BasicBlock, prefix []*ssa.BasicBlock, leaf func
 // mentionsValue reports whether the text value v is built (by concatenation or a formatting call)
 // from want; phis must mention it on every edge.
 func mentionsValue(v, want ssa.Value, depth int) bool {
-	if v == want {
+	if valEq(v, want) {
 		return true
 	}
 	if depth > 8 {
@@ -512,6 +512,55 @@ func mentionsValue(v, want ssa.Value, depth int) bool {
 	return false
 }
 
+// valEq: the same SSA value, or two loads of the same field of the same base.
+func valEq(a, b ssa.Value) bool {
+	if a == b {
+		return true
+	}
+	if a == nil || b == nil {
+		return false
+	}
+	ba, fa, oka := ir.FieldLoad(a)
+	bb, fb, okb := ir.FieldLoad(b)
+	return oka && okb && fa == fb && ba == bb
+}
+
+// inputOf returns the value that stands for item.field inside callee f at this call: the parameter that
+// receives the field, or (when the item itself is handed over) a load of that field of the parameter.
+// item == nil accepts any base.
+func inputOf(call *ssa.Call, f *ssa.Function, item ssa.Value, field string) ssa.Value {
+	if f == nil || len(f.Params) != len(call.Call.Args) {
+		return nil
+	}
+	for i, a := range call.Call.Args {
+		if b, ok := fieldOf(a, field); ok && (item == nil || b == item) {
+			return f.Params[i]
+		}
+	}
+	for i, a := range call.Call.Args {
+		if item != nil && a != item {
+			continue
+		}
+		if item == nil {
+			if _, isR := rangeElem(a); !isR {
+				continue
+			}
+		}
+		var found ssa.Value
+		ir.Instrs(f, func(in ssa.Instruction) {
+			if v, ok := in.(ssa.Value); ok && found == nil {
+				if b, okF := fieldOf(v, field); okF && b == ssa.Value(f.Params[i]) {
+					found = v
+				}
+			}
+		})
+		if found != nil {
+			return found
+		}
+	}
+	return nil
+}
+
 func lenCmp(op token.Token, n, k int64) (bool, bool) {
 	switch op {
 	case token.EQL:
@@ -537,22 +586,23 @@ func help2(c *Ctx) {
 		return
 	}
 	var valueFn, envFn, namesFn *ssa.Function
+	var hide, v, envIn ssa.Value
 	for _, call := range ir.Calls(ph) {
 		f := ir.Static(call)
-		if f == nil || f.Pkg != ph.Pkg || f.Signature.Recv() != nil {
+		cv, isCV := call.(*ssa.Call)
+		if f == nil || !isCV || f.Pkg != ph.Pkg || f.Signature.Recv() != nil || f.Signature.Results().Len() != 1 {
 			continue
 		}
-		a := call.Common().Args
-		switch {
-		case len(a) == 2 && f.Signature.Results().Len() == 1:
-			if _, ok := fieldOf(a[0], "HideValue"); ok {
-				valueFn = f
-			}
-		case len(a) == 1:
-			if _, ok := fieldOf(a[0], "EnvVar"); ok {
-				envFn = f
-			}
-			if _, isR := rangeElem(a[0]); isR && c.isNamed(a[0].Type(), "internal/container", "Container") {
+		if h, d := inputOf(cv, f, nil, "HideValue"), inputOf(cv, f, nil, "DefaultValue"); h != nil && d != nil {
+			valueFn, hide, v = f, h, d
+			continue
+		}
+		if e := inputOf(cv, f, nil, "EnvVar"); e != nil {
+			envFn, envIn = f, e
+			continue
+		}
+		if n := inputOf(cv, f, nil, "Names"); n != nil {
+			if _, isP := n.(*ssa.Parameter); !isP {
 				namesFn = f
 			}
 		}
@@ -560,19 +610,18 @@ func help2(c *Ctx) {
 	if valueFn != nil {
 		fn := valueFn
 		c.Mark(fn)
-		hide, v := fn.Params[0], fn.Params[1]
 		for _, sc := range []struct{ hidden, empty bool }{{true, true}, {true, false}, {false, true}, {false, false}} {
 			key := fmt.Sprintf("%s[hidden=%v,empty=%v]", Q(fn), sc.hidden, sc.empty)
 			leaf := func(x ssa.Value, _ []*ssa.BasicBlock) (bool, bool) {
-				if x == ssa.Value(hide) {
+				if valEq(x, hide) {
 					return sc.hidden, true
 				}
 				if bo, ok := x.(*ssa.BinOp); ok {
-					if s, isS := ir.ConstString(bo.Y); isS && s == "" && bo.X == ssa.Value(v) {
+					if s, isS := ir.ConstString(bo.Y); isS && s == "" && valEq(bo.X, v) {
 						return lenCmp(bo.Op, boolToLen(!sc.empty), 0)
 					}
 					if lc, isCall := bo.X.(*ssa.Call); isCall {
-						if bi, isB := lc.Call.Value.(*ssa.Builtin); isB && bi.Name() == "len" && lc.Call.Args[0] == ssa.Value(v) {
+						if bi, isB := lc.Call.Value.(*ssa.Builtin); isB && bi.Name() == "len" && valEq(lc.Call.Args[0], v) {
 							if k, isK := ir.ConstInt(bo.Y); isK {
 								return lenCmp(bo.Op, boolToLen(!sc.empty), k)
 							}
@@ -612,7 +661,7 @@ func help2(c *Ctx) {
 				return
 			}
 			fc := stdCall(sl, "strings", "Fields")
-			if fc == nil || fc.Call.Args[0] != ssa.Value(fn.Params[0]) {
+			if fc == nil || !valEq(fc.Call.Args[0], envIn) {
 				return
 			}
 			if okB, _ := noBreak(h); !okB {
@@ -639,7 +688,7 @@ func help2(c *Ctx) {
 				}
 				// the accumulator must reach the result
 				reaches := false
-				for _, r := range ir.Returns(fn) {
+				for _, r := range ir.ReturnPoints(fn) {
 					if mentionsValue(r.Results[0], acc, 0) {
 						reaches = true
 					}
@@ -649,6 +698,24 @@ func help2(c *Ctx) {
 				}
 			}
 		})
+		if !ok {
+			// strings.Join(strings.Fields(list), sep) mentioned by a result: every element is in it
+			ir.Instrs(fn, func(in ssa.Instruction) {
+				j, isCall := in.(*ssa.Call)
+				if !isCall || !ir.IsStdFunc(ir.Static(j), "strings", "Join") {
+					return
+				}
+				fc := stdCall(j.Call.Args[0], "strings", "Fields")
+				if fc == nil || !valEq(fc.Call.Args[0], envIn) {
+					return
+				}
+				for _, r := range ir.ReturnPoints(fn) {
+					if mentionsValue(r.Results[0], j, 0) {
+						ok = true
+					}
+				}
+			})
+		}
 		c.Check(ok, Q(fn), fn.Pos(), "every variable of the list appears", why)
 	} else {
 		c.Undecided("anchor:help-env-helper", token.NoPos, "not found")
